@@ -145,12 +145,20 @@ func (sc *spliceCtx) splice(call *ast.CallExpr) ([]byte, error) {
 		return nil, fmt.Errorf("uses %s", bad)
 	}
 	stmt, ifStmt := enclosingStmt(sc.callerFile, call)
+	var hoistFrom ast.Stmt // the call is an operand inside this statement and is hoisted in front of it
 	if stmt == nil {
-		return nil, fmt.Errorf("the call is nested in a larger expression")
+		h, err := sc.hoistable(call)
+		if err != nil {
+			return nil, err
+		}
+		hoistFrom = h
 	}
 	outer := stmt
 	if ifStmt != nil {
 		outer = ifStmt
+	}
+	if hoistFrom != nil {
+		outer = hoistFrom
 	}
 	if !inStmtList(sc.callerFile, outer) {
 		return nil, fmt.Errorf("the statement is not in a statement list")
@@ -360,7 +368,14 @@ func (sc *spliceCtx) splice(call *ast.CallExpr) ([]byte, error) {
 		tail = "return " + rlist
 	}
 	var repl string
-	if ifStmt != nil {
+	if hoistFrom != nil {
+		if nres != 1 {
+			return nil, fmt.Errorf("nested call with %d results", nres)
+		}
+		tmpv := fmt.Sprintf("_inl%d_v", sc.seq)
+		st := string(sc.callerSrc[cbase(hoistFrom.Pos()):cbase(call.Pos())]) + tmpv + string(sc.callerSrc[cbase(call.End()):cbase(hoistFrom.End())])
+		repl = b.String() + tmpv + " := " + rlist + "\n" + st
+	} else if ifStmt != nil {
 		// { spliced; if tail; cond { ... } else ... }
 		rest := string(sc.callerSrc[cbase(ifStmt.Cond.Pos()):cbase(ifStmt.End())])
 		repl = "{\n" + b.String() + "if " + tail + "; " + rest + "\n}"
@@ -373,6 +388,77 @@ func (sc *spliceCtx) splice(call *ast.CallExpr) ([]byte, error) {
 	from, to := cbase(outer.Pos()), cbase(outer.End())
 	out := string(sc.callerSrc[:from]) + repl + string(sc.callerSrc[to:])
 	return []byte(out), nil
+}
+
+// hoistable: the innermost simple statement that contains call as an operand, provided that evaluating the call
+// before the statement is the same as evaluating it in place (nothing with effects is evaluated before it, and it
+// is not under a short-circuit operator or inside a function literal).
+func (sc *spliceCtx) hoistable(call *ast.CallExpr) (ast.Stmt, error) {
+	var stack []ast.Node
+	var path []ast.Node
+	ast.Inspect(sc.callerFile, func(n ast.Node) bool {
+		if n == nil {
+			stack = stack[:len(stack)-1]
+			return true
+		}
+		stack = append(stack, n)
+		if n == ast.Node(call) {
+			path = append([]ast.Node(nil), stack...)
+		}
+		return true
+	})
+	if path == nil {
+		return nil, fmt.Errorf("call not found")
+	}
+	var stmt ast.Stmt
+	for i := len(path) - 2; i >= 0; i-- {
+		switch x := path[i].(type) {
+		case *ast.FuncLit:
+			return nil, fmt.Errorf("the call is inside a function literal")
+		case *ast.BinaryExpr:
+			if (x.Op == token.LAND || x.Op == token.LOR) && x.Y.Pos() <= call.Pos() && call.End() <= x.Y.End() {
+				return nil, fmt.Errorf("the call is evaluated conditionally")
+			}
+		case ast.Stmt:
+			switch x.(type) {
+			case *ast.AssignStmt, *ast.ExprStmt, *ast.ReturnStmt, *ast.DeclStmt:
+				stmt = x
+			default:
+				return nil, fmt.Errorf("the call is nested in a statement that cannot take a hoisted operand")
+			}
+		}
+		if stmt != nil {
+			break
+		}
+	}
+	if stmt == nil {
+		return nil, fmt.Errorf("no enclosing statement")
+	}
+	var err error
+	ast.Inspect(stmt, func(n ast.Node) bool {
+		if err != nil {
+			return false
+		}
+		switch x := n.(type) {
+		case *ast.CallExpr:
+			if x == call || x.Pos() >= call.Pos() || x.End() >= call.End() {
+				return true // the call itself, later operands, or an enclosing call (evaluated after its arguments)
+			}
+			if tv, ok := sc.callerInfo.Types[x.Fun]; ok && (tv.IsType() || tv.IsBuiltin()) {
+				return true
+			}
+			err = fmt.Errorf("another call is evaluated before it in the same statement")
+		case *ast.UnaryExpr:
+			if x.Op == token.ARROW && x.Pos() < call.Pos() {
+				err = fmt.Errorf("a channel receive is evaluated before it in the same statement")
+			}
+		}
+		return true
+	})
+	if err != nil {
+		return nil, err
+	}
+	return stmt, nil
 }
 
 func (sc *spliceCtx) typeString(t types.Type) (string, error) {
@@ -397,4 +483,98 @@ func (sc *spliceCtx) typeString(t types.Type) (string, error) {
 		return p.Name()
 	})
 	return s, err
+}
+
+// spliceGo handles `go f(args)` / `defer f(args)`: the call becomes a call of a function literal with the callee's
+// own parameter list and body, so that the arguments are still evaluated at the go/defer statement.
+func (sc *spliceCtx) spliceGo(call *ast.CallExpr) ([]byte, error) {
+	fd := sc.calleeDecl
+	if fd.Body == nil {
+		return nil, fmt.Errorf("no body")
+	}
+	sig := sc.calleeInfo.Defs[fd.Name].(*types.Func).Type().(*types.Signature)
+	if sig.Variadic() {
+		return nil, fmt.Errorf("variadic")
+	}
+	cbase := func(p token.Pos) int { return sc.fset.Position(p).Offset }
+	fbase := cbase
+	// imports and package-level names must mean the same at the call site
+	var capErr error
+	check := func(n ast.Node) {
+		ast.Inspect(n, func(x ast.Node) bool {
+			id, ok := x.(*ast.Ident)
+			if !ok || capErr != nil {
+				return true
+			}
+			obj := sc.calleeInfo.Uses[id]
+			if obj == nil {
+				return true
+			}
+			inner := sc.callerPkg.Scope().Innermost(call.Pos())
+			if inner == nil {
+				capErr = fmt.Errorf("scope")
+				return true
+			}
+			if pn, isPkgName := obj.(*types.PkgName); isPkgName {
+				_, o := inner.LookupParent(id.Name, call.Pos())
+				if cpn, isPN := o.(*types.PkgName); !isPN || cpn.Imported() != pn.Imported() {
+					capErr = fmt.Errorf("import %s is not visible at the call site", id.Name)
+				}
+				return true
+			}
+			pkgLevel := obj.Parent() == types.Universe || (obj.Pkg() != nil && obj.Parent() == obj.Pkg().Scope())
+			if !pkgLevel || (obj.Pkg() != nil && obj.Pkg() != sc.callerPkg) {
+				return true
+			}
+			if _, o := inner.LookupParent(id.Name, call.Pos()); o != obj {
+				capErr = fmt.Errorf("%s is shadowed at the call site", id.Name)
+			}
+			return true
+		})
+	}
+	check(fd.Body)
+	check(fd.Type)
+	if capErr != nil {
+		return nil, capErr
+	}
+	params := string(sc.calleeSrc[fbase(fd.Type.Params.Opening)+1 : fbase(fd.Type.Params.Closing)])
+	var args []string
+	for _, a := range call.Args {
+		args = append(args, string(sc.callerSrc[cbase(a.Pos()):cbase(a.End())]))
+	}
+	if fd.Recv != nil && len(fd.Recv.List) == 1 {
+		sel, ok := ast.Unparen(call.Fun).(*ast.SelectorExpr)
+		if !ok {
+			return nil, fmt.Errorf("method value call")
+		}
+		recvT := sig.Recv().Type()
+		argT := sc.callerInfo.TypeOf(sel.X)
+		rtext := string(sc.callerSrc[cbase(sel.X.Pos()):cbase(sel.X.End())])
+		switch {
+		case argT != nil && types.Identical(recvT, argT):
+		case argT != nil && types.Identical(recvT, types.NewPointer(argT)):
+			rtext = "&" + rtext
+		default:
+			return nil, fmt.Errorf("receiver conversion")
+		}
+		rname := "_"
+		if len(fd.Recv.List[0].Names) == 1 {
+			rname = fd.Recv.List[0].Names[0].Name
+		}
+		rtype := string(sc.calleeSrc[fbase(fd.Recv.List[0].Type.Pos()):fbase(fd.Recv.List[0].Type.End())])
+		if strings.TrimSpace(params) == "" {
+			params = rname + " " + rtype
+		} else {
+			params = rname + " " + rtype + ", " + params
+		}
+		args = append([]string{rtext}, args...)
+	}
+	results := ""
+	if fd.Type.Results != nil {
+		results = " " + string(sc.calleeSrc[fbase(fd.Type.Results.Pos()):fbase(fd.Type.Results.End())])
+	}
+	body := string(sc.calleeSrc[fbase(fd.Body.Lbrace):fbase(fd.Body.Rbrace)+1])
+	repl := "func(" + params + ")" + results + " " + body + "(" + strings.Join(args, ", ") + ")"
+	from, to := cbase(call.Pos()), cbase(call.End())
+	return []byte(string(sc.callerSrc[:from]) + repl + string(sc.callerSrc[to:])), nil
 }
